@@ -74,6 +74,36 @@ pub fn subs() -> Vec<Box<dyn AnySub>> {
         thorough: 1_000_000,
         strat: || (header_plan(), hedit()).prop_map(|(plan, edit)| HeaderCase { plan, edit }).boxed(),
         check: check_edit,
+    }),
+    // the same edits on a form POST whose body the server folds into the query string; Content-Length and
+    // Content-Type are among the signed headers (they describe the body that is about to be replaced)
+    Box::new(Sub {
+        name: "header-edit-on-folded-form",
+        quick: 20_000,
+        thorough: 300_000,
+        strat: || {
+            (plan(PlanOpts { logical: LogicalOpts { max_segments: 0, max_query: 1, max_headers: 4, body_class: 0, raw_segments: false }, allow_s3: true, allow_fold: true, form_bodies: true, ..PlanOpts::default() }), hedit(), any::<u8>())
+                .prop_map(|(mut plan, edit, pick)| {
+                    plan.cfg.fold = true;
+                    if plan.form.is_none() {
+                        plan.form = Some(vec![(B::from("Action"), B::from("ListThings"))]);
+                    }
+                    if !plan.logical.headers.iter().any(|(n, _)| n == "content-length") {
+                        plan.logical.headers.push(("content-length".into(), vec![B::from(["17", "0", "1", "4096"][pick as usize % 4])]));
+                    }
+                    for (bit, name) in [(1u8, "content-length"), (2, "content-type")] {
+                        if pick & (bit << 4) == 0 && !plan.spec.signed_headers.iter().any(|h| h == name) {
+                            plan.spec.signed_headers.push(name.into());
+                            if !plan.spec.keep_order {
+                                plan.spec.signed_headers.sort();
+                            }
+                        }
+                    }
+                    HeaderCase { plan, edit }
+                })
+                .boxed()
+        },
+        check: check_edit,
     })]
 }
 
